@@ -97,6 +97,8 @@ func loadProgram(repo string, patterns []string) (*Program, error) {
 // anywhere in the loaded module packages: their value is their initialiser (zero if none).
 func (prog *Program) scanGlobals() {
 	prog.MutableGlobals = map[*types.Var]bool{}
+	prog.AddrTakenGlobals = map[*types.Var]bool{}
+	prog.WrittenMaps = map[*types.Var]bool{}
 	prog.GlobalInit = map[*types.Var]ast.Expr{}
 	prog.GlobalInfo = map[*types.Var]*packages.Package{}
 	for _, p := range prog.Pkgs {
@@ -129,6 +131,11 @@ func (prog *Program) scanGlobals() {
 						e = x.X
 						continue
 					}
+					if _, isMap := info.TypeOf(x.X).Underlying().(*types.Map); isMap {
+						if g := globalVarOf(x.X, info); g != nil {
+							prog.WrittenMaps[g] = true
+						}
+					}
 					return
 				default:
 					return
@@ -155,7 +162,26 @@ func (prog *Program) scanGlobals() {
 			}
 			ast.Inspect(f, func(n ast.Node) bool {
 				switch x := n.(type) {
+				case *ast.CallExpr:
+					// a global map passed to any function (including delete) may be written
+					for _, a := range x.Args {
+						if g := globalVarOf(a, info); g != nil {
+							if _, isMap := g.Type().Underlying().(*types.Map); isMap {
+								if id, ok := x.Fun.(*ast.Ident); !ok || id.Name != "len" {
+									prog.WrittenMaps[g] = true
+								}
+							}
+						}
+					}
 				case *ast.AssignStmt:
+					for _, r := range x.Rhs {
+						// aliasing a global map to another variable: give up on constness
+						if g := globalVarOf(r, info); g != nil {
+							if _, isMap := g.Type().Underlying().(*types.Map); isMap {
+								prog.WrittenMaps[g] = true
+							}
+						}
+					}
 					if x.Tok != token.DEFINE {
 						for _, l := range x.Lhs {
 							mark(l)
@@ -166,6 +192,18 @@ func (prog *Program) scanGlobals() {
 				case *ast.UnaryExpr:
 					if x.Op == token.AND {
 						mark(x.X)
+						switch y := ast.Unparen(x.X).(type) {
+						case *ast.Ident:
+							if v, ok := info.ObjectOf(y).(*types.Var); ok && v.Pkg() != nil && v.Parent() == v.Pkg().Scope() {
+								prog.AddrTakenGlobals[v] = true
+							}
+						case *ast.SelectorExpr:
+							if _, isSel := info.Selections[y]; !isSel {
+								if v, ok := info.ObjectOf(y.Sel).(*types.Var); ok && v.Pkg() != nil && v.Parent() == v.Pkg().Scope() {
+									prog.AddrTakenGlobals[v] = true
+								}
+							}
+						}
 					}
 				case *ast.RangeStmt:
 					if x.Tok == token.ASSIGN {
@@ -241,6 +279,22 @@ func (prog *Program) loadExtraContracts(dir string) error {
 		}
 		if err := prog.addContracts(cf); err != nil {
 			return err
+		}
+	}
+	return nil
+}
+
+func globalVarOf(e ast.Expr, info *types.Info) *types.Var {
+	switch y := ast.Unparen(e).(type) {
+	case *ast.Ident:
+		if v, ok := info.ObjectOf(y).(*types.Var); ok && v.Pkg() != nil && v.Parent() == v.Pkg().Scope() {
+			return v
+		}
+	case *ast.SelectorExpr:
+		if _, isSel := info.Selections[y]; !isSel {
+			if v, ok := info.ObjectOf(y.Sel).(*types.Var); ok && v.Pkg() != nil && v.Parent() == v.Pkg().Scope() {
+				return v
+			}
 		}
 	}
 	return nil
